@@ -49,9 +49,11 @@ class ProtocolHandler:
 
         # Get method - only requests/notifications have method
         method = getattr(message, "method", None)
+        # Get ID if available (not on notifications)
+        msg_id = getattr(message, "id", None)
         if not method:
-            # Get ID if available (not on notifications)
-            msg_id = getattr(message, "id", None)
+            if msg_id is None:
+                return None, None  # Nothing to answer
             return self.create_error_response(msg_id, -32600, "Invalid request"), None
 
         # Update session activity
@@ -60,21 +62,27 @@ class ProtocolHandler:
 
         handler = self._handlers.get(method)
         if not handler:
-            # Get ID if available (not on notifications)
-            msg_id = getattr(message, "id", None)
+            if msg_id is None:
+                # Unknown notification: notifications are never answered
+                logging.debug(f"Ignoring notification without handler: {method}")
+                return None, None
             return self.create_error_response(
                 msg_id, -32601, f"Method not found: {method}"
             ), None
 
         try:
-            return await handler(message, session_id)
+            result = await handler(message, session_id)
         except Exception as e:
             logging.error(f"Handler error for {method}: {e}")
-            # Get ID if available (not on notifications)
-            msg_id = getattr(message, "id", None)
+            if msg_id is None:
+                return None, None  # Notifications are never answered
             return self.create_error_response(
                 msg_id, -32603, f"Internal error: {str(e)}"
             ), None
+
+        if msg_id is None:
+            return None, None  # Notifications are never answered
+        return result
 
     async def _handle_initialize(
         self, message: JSONRPCMessage, session_id: Optional[str]
